@@ -95,6 +95,7 @@ var hostile = []string{
 	"zqx'", "zqx''", "zqx' or '1'='1", "zqx\\", "zqx\\'", "zqx\\' or 1=1 --", "zqx\"", "zqx--", "zqx/*", "zqx*/", "zqx;select 1", "zqx?", "zqx ? ?", "zqx$$", "zqx$1", "zqx$tag$",
 	"zqx\x00'", "zqxé'", "zqx" + strings.Repeat("'a", 60), "zqx{}", "zqx\"]", "zqx$[0]", "zqx)", "zqx')::jsonpath or true--", "zqx\" || \"", "zqx\n'", "zqx%", "zqx_%'", "zqx'::text", "E'zqx\\'", "zqx''--",
 	"zqx?0", "zqx?1", "zqx?0?1 ?", "?0zqx'", "zqx?0:x?1", // positional placeholders: another clause's value would be substituted into the text
+	"zqx ORDER BY 1", "zqx ORDER BY id DESC LIMIT 1", "zqx WHERE 1=1", "zqx GROUP BY x", "a ORDER BY zqx", "zqx LIMIT 1 OFFSET 2", "zqx) data", "zqx UNION SELECT 1", // keywords a builder may search the rendered text for
 	"zqx", // benign control: must behave like the baseline
 }
 
